@@ -5,7 +5,7 @@ use std::{future::Future, ops::ControlFlow, pin::Pin, time::Instant};
 
 use fn_graph::{FnGraph, StreamOutcome};
 use futures::FutureExt;
-use interruptible::{InterruptSignal, InterruptibilityState};
+use crate::ishim::{mk_state, InterruptSignal};
 use serde_json::{json, Value};
 use tokio::sync::mpsc;
 
@@ -91,6 +91,42 @@ fn full_tree(spec: &Spec, cfg: &AnyCfg) -> Vec<(Vec<u16>, usize, u64)> {
     out
 }
 
+/// In the default-feature harness build (no interruption in fn_graph's API) configurations that
+/// ask for interruption are replaced by their uninterrupted counterparts; duplicates removed.
+fn ni_adapt(v: Vec<AnyCfg>) -> Vec<AnyCfg> {
+    if !crate::ishim::DEFAULT_FEATURES_BUILD {
+        return v;
+    }
+    let mut out: Vec<AnyCfg> = vec![];
+    for c in v {
+        let c = match c {
+            AnyCfg::S(mut c) => {
+                c.strat = Strat::Non;
+                c.interrupt = false;
+                c.include = true;
+                c.opts_order = 0;
+                AnyCfg::S(c)
+            }
+            AnyCfg::C(mut c) => {
+                c.strat = Strat::Non;
+                c.interrupt = false;
+                c.include = true;
+                c.opts_order = 0;
+                c.api = match c.api {
+                    SApi::StreamInterruptible => SApi::Stream,
+                    SApi::StreamWithInterruptible => SApi::StreamWith,
+                    a => a,
+                };
+                AnyCfg::C(c)
+            }
+        };
+        if !out.iter().any(|o| o.json() == c.json()) {
+            out.push(c);
+        }
+    }
+    out
+}
+
 fn first_cfgs(n: usize) -> Vec<AnyCfg> {
     let mut v = vec![];
     let fail: Vec<bool> = (0..n).map(|i| i == 1).collect();
@@ -120,7 +156,7 @@ fn first_cfgs(n: usize) -> Vec<AnyCfg> {
     s.interrupt = true;
     s.drop_stream = true;
     v.push(AnyCfg::C(s));
-    v
+    ni_adapt(v)
 }
 
 fn second_cfgs(n: usize) -> Vec<AnyCfg> {
@@ -142,7 +178,7 @@ fn second_cfgs(n: usize) -> Vec<AnyCfg> {
     let mut s = CCfg::plain(SApi::StreamWith);
     s.rev = true;
     v.push(AnyCfg::C(s));
-    v
+    ni_adapt(v)
 }
 
 /// DFS tree of `cfg` on fresh graphs with at most `dev` non-default answers.
@@ -327,6 +363,8 @@ pub fn run_c15(tier: &str, deadline: Instant, total: &mut Stats, log: &mut Vec<V
             s2.interrupt = true;
             seconds.push(AnyCfg::C(s2));
         }
+        let firsts = ni_adapt(firsts);
+        let seconds = ni_adapt(seconds);
         let mut items: Vec<(usize, usize, usize)> = vec![];
         for s in 0..specs.len() {
             for a in 0..firsts.len() {
@@ -438,12 +476,7 @@ fn so_out<T>(ok: bool, so: StreamOutcome<T>, errors: Vec<usize>, seed: impl FnOn
 
 /// The `&self` streaming methods as boxed futures (so that two can be alive at once).
 fn shared_fut<'a>(g: &'a FnGraph<Node>, cfg: &RunCfg, sh: &Sh, irx: &'a mut mpsc::Receiver<InterruptSignal>) -> BoxFut<'a> {
-    let state = match cfg.strat {
-        Strat::Non => InterruptibilityState::new_non_interruptible(),
-        Strat::Ignore => InterruptibilityState::new_ignore_interruptions(irx.into()),
-        Strat::Finish => InterruptibilityState::new_finish_current(irx.into()),
-        Strat::NextN(k) => InterruptibilityState::new_poll_next_n(irx.into(), k),
-    };
+    let state = mk_state(cfg.strat, irx);
     let opts = crate::engine_s::build_opts(cfg.opts_order, state, cfg.include, cfg.rev);
     let limit = cfg.limit;
     let sh2 = sh.clone();
@@ -668,7 +701,7 @@ fn c20_cfgs(n: usize) -> Vec<AnyCfg> {
     s.strat = Strat::Finish;
     s.interrupt = true;
     v.push(AnyCfg::C(s));
-    v
+    ni_adapt(v)
 }
 
 /// One set of simultaneous runs: full DFS over the shared choice list within the bounds,
@@ -804,12 +837,21 @@ pub fn run_c20(tier: &str, deadline: Instant, total: &mut Stats, log: &mut Vec<V
     {
         use crate::graphs::{family_spec, Family};
         // (functions, switch bound)
-        let plans: &[(usize, usize)] = if tier == "thorough" { &[(9, 3), (17, 2), (33, 2), (40, 1), (65, 1)] } else { &[(9, 2), (33, 1)] };
+        let plans: &[(usize, usize)] = if tier == "thorough" { &[(9, 3), (17, 2), (33, 2), (34, 2), (40, 1), (65, 1), (66, 1), (130, 1)] } else { &[(9, 2), (33, 1), (66, 1)] };
         let ks: Vec<usize> = plans.iter().map(|p| p.0).collect();
         let mut specs = vec![];
         let mut bounds = vec![];
         for &(k, sb) in plans {
-            for s in [family_spec(Family::Chain, k), family_spec(Family::Antichain, k), family_spec(Family::Comb, k / 2)] {
+            // chains, antichains, combs; and shapes with join nodes (several predecessors): fan-in,
+            // two-wide layers, diamonds
+            for s in [
+                family_spec(Family::Chain, k),
+                family_spec(Family::Antichain, k),
+                family_spec(Family::Comb, k / 2),
+                family_spec(Family::FanIn, k - 1),
+                family_spec(Family::Layered(2), k / 2 + 1),
+                family_spec(Family::Diamonds, k / 3),
+            ] {
                 specs.push(s);
                 bounds.push(sb);
             }
@@ -849,7 +891,7 @@ pub fn run_c20(tier: &str, deadline: Instant, total: &mut Stats, log: &mut Vec<V
             |l| st.merge(l),
         );
         st.capped |= capped;
-        let label = format!("three simultaneous &self runs on chains, antichains and combs of {ks:?} functions: every interleaving with <= {:?} switches respectively, each run on its eager schedule; a run starts when first chosen, a finished run hands over to the not-yet-started one by default", plans.iter().map(|p| p.1).collect::<Vec<_>>());
+        let label = format!("three simultaneous &self runs on chains, antichains, combs, fan-ins, two-wide layered graphs and diamond chains of about {ks:?} functions: every interleaving with <= {:?} switches respectively, each run on its eager schedule; a run starts when first chosen, a finished run hands over to the not-yet-started one by default", plans.iter().map(|p| p.1).collect::<Vec<_>>());
         log.push(json!({"space": label, "interleavings": st.execs, "completed": !st.capped, "wall_s": t0.elapsed().as_secs_f64()}));
         eprintln!("  [{label}] interleavings={} viol={} {}{:.1}s", st.execs, st.viol_total, if st.capped { "CAPPED " } else { "" }, t0.elapsed().as_secs_f64());
         total.merge(st);
